@@ -454,7 +454,7 @@ class Target(DataExchangeProtocol):
             self.lrt = lrt
             self.gbt = gbt
             self.gbi = atr_req.gb
-            self.miu = atr_req.lr - 3
+            self.miu = atr_req.lr - 3 - int(atr_req.did > 0)
             self.rwt = 4096/13.56E6 * pow(2, rwt)
             self.did = atr_req.did if atr_req.did > 0 else None
             self.acm = not (target.sens_res or target.sensf_res)
